@@ -37,9 +37,23 @@ func binaryMuxGadget(k, n int) *gadget {
 	}}
 }
 
-func mapGadget(n int) *gadget {
-	return &gadget{name: fmt.Sprintf("selector.Map(query, %d keys, %d values)", n, n), nIn: 1 + 2*n, nOut: 1, build: func(api frontend.API, in []frontend.Variable) []frontend.Variable {
-		return []frontend.Variable{selector.Map(api, in[0], in[1:1+n], in[1+n:])}
+// mapGadget: adjacent=false hands Map two independently allocated slices; adjacent=true hands it
+// table[:n] and table[n:] of one array (keys has spare capacity reaching into values).
+func mapGadget(n int, adjacent bool) *gadget {
+	name := fmt.Sprintf("selector.Map(query, %d keys, %d values)", n, n)
+	if adjacent {
+		name = fmt.Sprintf("selector.Map(query, table[:%d], table[%d:])", n, n)
+	}
+	return &gadget{name: name, nIn: 1 + 2*n, nOut: 1, build: func(api frontend.API, in []frontend.Variable) []frontend.Variable {
+		if adjacent {
+			table := in[1:]
+			return []frontend.Variable{selector.Map(api, in[0], table[:n], table[n:])}
+		}
+		keys := make([]frontend.Variable, n)
+		values := make([]frontend.Variable, n)
+		copy(keys, in[1:1+n])
+		copy(values, in[1+n:])
+		return []frontend.Variable{selector.Map(api, in[0], keys, values)}
 	}}
 }
 
@@ -566,7 +580,14 @@ func selectorJobs(r *vcore.Run) []job {
 				n := n
 				jobs = append(jobs, job{name: fmt.Sprintf("sel-mux/%s/%s/n=%d", f.name, bld, n), run: func(a *acc) {
 					rng := r.Rand(fmt.Sprintf("sel-mux/%s/%s/%d", f.name, bld, n))
-					vecs := inputVectors(rng, f.p, n, r.Pick(2, 5))
+					nv := r.Pick(2, 5)
+					if !f.tiny && r.Quick() {
+						nv = 0
+					}
+					vecs := inputVectors(rng, f.p, n, nv)
+					if len(vecs) < 2 {
+						vecs = append(vecs, randVec(rng, f.p, n, true))
+					}
 					for variant := 0; variant < 2; variant++ {
 						var g *gadget
 						if variant == 0 {
@@ -677,9 +698,10 @@ func selectorJobs(r *vcore.Run) []job {
 				n := n
 				jobs = append(jobs, job{name: fmt.Sprintf("sel-map/%s/%s/n=%d", f.name, bld, n), run: func(a *acc) {
 					rng := r.Rand(fmt.Sprintf("sel-map/%s/%s/%d", f.name, bld, n))
-					sm := mustCompile(r, a, f, bld, mapGadget(n), "selector.Map")
+					sm := mustCompile(r, a, f, bld, mapGadget(n, false), "selector.Map")
+					sadj := mustCompile(r, a, f, bld, mapGadget(n, true), "selector.Map")
 					sk := mustCompile(r, a, f, bld, keyDecoderGadget(n), "selector.KeyDecoder")
-					if sm == nil || sk == nil {
+					if sm == nil || sk == nil || sadj == nil {
 						return
 					}
 					// documented panic on length mismatch
@@ -761,6 +783,11 @@ func selectorJobs(r *vcore.Run) []job {
 									return cbs
 								}}, true)
 
+							// the same call with keys and values being adjacent parts of one slice (own input class)
+							aexp := exp
+							aexp.class += ",keys-and-values-adjacent-parts-of-one-slice"
+							runSelCase(r, a, sadj, selCase{fam: "selector.Map", in: in, exp: aexp}, false)
+
 							kin := append([]*big.Int{q}, keys...)
 							kexp := keyDecoderExpect(q, keys)
 							var kw [][]*big.Int
@@ -802,6 +829,12 @@ func selectorJobs(r *vcore.Run) []job {
 
 			// ---- Partition / Slice
 			partN := []int{1, 2, 3, 4, 5, 6, 7, 8, 9, 16, 17}
+			if r.Quick() {
+				partN = []int{1, 2, 3, 4, 5, 8, 9}
+				if !f.tiny {
+					partN = []int{1, 2, 3, 5, 8, 17}
+				}
+			}
 			for _, n := range partN {
 				n := n
 				jobs = append(jobs, job{name: fmt.Sprintf("sel-partition/%s/%s/n=%d", f.name, bld, n), run: func(a *acc) {
@@ -845,6 +878,9 @@ func selectorJobs(r *vcore.Run) []job {
 						}
 						for _, vec := range inputVectors(rng, f.p, n, r.Pick(1, 3)) {
 							for _, pv := range selGrid(f, n, rng) {
+								if f.tiny && r.Quick() && pv.Int64() > int64(n)+2 && pv.Int64() < 45 && rng.IntN(4) != 0 {
+									continue
+								}
 								exp := partitionExpect(pv, right, vec)
 								var ws [][]*big.Int
 								if exp.kind == kExact {
@@ -875,9 +911,11 @@ func selectorJobs(r *vcore.Run) []job {
 									continue
 								}
 								exp := sliceExpect(st, en, vec)
-								doL := true
-								if f.tiny && r.Quick() && (st.Int64() > int64(n)+1 && en.Int64() > int64(n)+1) {
-									doL = rng.IntN(10) == 0
+								// dishonest masks: always near the valid range, sampled elsewhere
+								far := func(x *big.Int) bool { return x.Cmp(bi(int64(n+1))) > 0 && x.Cmp(sub(f.p, bi(2))) < 0 }
+								doL := rng.IntN(r.Pick(6, 2)) == 0
+								if far(st) || far(en) {
+									doL = rng.IntN(r.Pick(150, 20)) == 0
 								}
 								var ws [][]*big.Int
 								if exp.kind == kExact {
